@@ -3327,6 +3327,7 @@ static ZBUFF_DCtx* ZBUFF_createDCtx(void)
     if (zbc==NULL) return NULL;
     memset(zbc, 0, sizeof(*zbc));
     zbc->zc = ZSTD_createDCtx();
+    if (zbc->zc==NULL) { free(zbc); return NULL; }
     zbc->stage = ZBUFFds_init;
     return zbc;
 }
@@ -3430,13 +3431,13 @@ static size_t ZBUFF_decompressContinue(ZBUFF_DCtx* zbc, void* dst, size_t* maxDs
                         free(zbc->inBuff);
                         zbc->inBuffSize = neededInSize;
                         zbc->inBuff = (char*)malloc(neededInSize);
-                        if (zbc->inBuff == NULL) return ERROR(memory_allocation);
+                        if (zbc->inBuff == NULL) { zbc->inBuffSize = 0; return ERROR(memory_allocation); }   /* no size without a buffer : the context may be used again */
                     }
                     if (zbc->outBuffSize < neededOutSize) {
                         free(zbc->outBuff);
                         zbc->outBuffSize = neededOutSize;
                         zbc->outBuff = (char*)malloc(neededOutSize);
-                        if (zbc->outBuff == NULL) return ERROR(memory_allocation);
+                        if (zbc->outBuff == NULL) { zbc->outBuffSize = 0; return ERROR(memory_allocation); }   /* no size without a buffer : the context may be used again */
                 }   }
                 if (zbc->dictSize)
                     ZSTD_decompress_insertDictionary(zbc->zc, zbc->dict, zbc->dictSize);
